@@ -123,6 +123,44 @@ def main():
                                   dict(area='fold-position', top=e[0] + ':' + str(e[1])))
         if len(samples) < 3: samples.append({'expression': to_const_c(chunk[0][0]), 'c11': list(chunk[0][1][:2])})
 
+    # ---- floating operands inside integer constant expressions (6.6p6: floating constants that are the immediate operands of casts;
+    # chibicc also folds comparisons, ! && || ?: and arithmetic on them): translation-time value = run-time value = gcc's value
+    import math
+    FL = ['0.5', '-0.25', '0.0', '-0.0', '1.5', '2.5', '255.9', '256.0', '-1.5', '3e9', '-3e9', '1e18', '0.75f', '1e-30f', '(1.0/3)', '0.5L', '65535.99', '2147483647.5', '-128.9', '127.5', '4294967295.5', '1e-320']
+    def fv(t): return float(eval(t.rstrip('fL').replace('(1.0/3)', '(1.0/3)')))
+    ITS = [('_Bool', 0, 1), ('signed char', -128, 127), ('unsigned char', 0, 255), ('short', -32768, 32767), ('unsigned short', 0, 65535), ('int', -2**31, 2**31 - 1), ('unsigned', 0, 2**32 - 1), ('long', -2**63, 2**63 - 1), ('unsigned long', 0, 2**64 - 1)]
+    fexprs = []
+    for a in FL:
+        va = fv(a)
+        for (t, lo, hi) in ITS:
+            if t == '_Bool' or lo <= math.trunc(va) <= hi: fexprs.append(('(%s)$A' % t, a, '1.0'))
+        fexprs += [('!$A', a, '1.0'), ('($A ? 3 : 4)', a, '1.0'), ('(int)(-$A < 0)', a, '1.0'), ('(_Bool)-$A', a, '1.0'), ('(int)(_Bool)$A + (int)(_Bool)(float)$A', a, '1.0')]
+        for b in rng.sample(FL, 4):
+            fexprs += [('($A < $B) + 2 * ($A <= $B) + 4 * ($A == $B) + 8 * ($A != $B) + 16 * ($A > $B) + 32 * ($A >= $B)', a, b), ('($A && $B) + 2 * ($A || $B)', a, b), ('($A && 1) + 2 * (0 || $B) + 4 * !($A && $B)', a, b)]
+            if abs(va + fv(b)) < 2e9 and abs(va * fv(b)) < 2e9: fexprs += [('(int)($A + $B) + (int)($A * $B)', a, b), ('(long)($A - $B)', a, b)]
+    ftext = [PRINTF]; fbody = []
+    for i, (tpl, a, b) in enumerate(fexprs):
+        lit = tpl.replace('$A', '(' + a + ')').replace('$B', '(' + b + ')')
+        ftext.append('static long fs%d = %s; enum { fe%d = (int)(%s) }; char fa%d[(int)(%s) %% 7 + 8];' % (i, lit, i, lit, i, lit))
+        ta = 'float' if a.endswith('f') else 'long double' if a.endswith('L') else 'double'; tb = 'float' if b.endswith('f') else 'long double' if b.endswith('L') else 'double'
+        ftext.append('static long fr%d(void) { volatile %s va = %s; volatile %s vb = %s; return %s; }' % (i, ta, a, tb, b, tpl.replace('$A', 'va').replace('$B', 'vb')))
+        fbody.append('  printf("%%ld %%d %%d %%ld\\n", fs%d, (int)fe%d, (int)sizeof(fa%d), fr%d());' % (i, i, i, i))
+    ftext.append('int main(void) {\n' + '\n'.join(fbody) + '\n  return 0; }\n')
+    ff = os.path.join(wd, 'fconst.c'); open(ff, 'w').write('\n'.join(ftext))
+    stc, gotc = compile_run(CHIBI, ff, ff + '.c.exe'); stg, gotg = compile_run(['gcc', '-w', '-O0', '-std=gnu11'], ff, ff + '.g.exe')
+    if stg != 'ok': run.corr_broken.append('floating-operand constant program fails under gcc: ' + stg[:300])
+    elif stc != 'ok': run.violation(dict(kind='constant-program', what=stc[:400], note='integer constant expressions with floating operands', input_file=write_replay(PID, 'fconst.c', '\n'.join(ftext))), dict(area='fold-float-operand', what='rejected'))
+    else:
+        lc, lg = gotc.strip().split('\n'), gotg.strip().split('\n')
+        for i, (tpl, a, b) in enumerate(fexprs):
+            evals += 1; nontriv.add('f' + tpl + a + b)
+            c_ = lc[i] if i < len(lc) else 'missing'; g_ = lg[i] if i < len(lg) else 'missing'
+            cs = c_.split(' ')
+            if c_ != g_ or (len(cs) == 4 and cs[0] != cs[3]):
+                run.violation(dict(kind='constant-expression', expression=tpl.replace('$A', '(' + a + ')').replace('$B', '(' + b + ')'), got=c_, gcc=g_,
+                                   meaning='static-initializer value, enum value, array bound (value % 7 + 8), run-time value on volatile operands: all four must agree with each other and with gcc'),
+                              dict(area='fold-float-operand', top=tpl[:12]))
+
     # undefined divisions in constant expressions must be diagnosed (exit 1 with a message), never crash the compiler
     divs = [(e, s) for e, s in undefined if s[3] in ('err-div-zero', 'err-overflow')][:60 if run.quick() else 400]
     divs += [(('B', 'div', ('L', 'i32', 1), ('L', 'i32', 0)), None), (('B', 'mod', ('L', 'u64', 5), ('L', 'u8', 0)), None),
